@@ -43,6 +43,15 @@ def run(res, args):
             f = gen.rand_frame(rng, small=True)
             tail = f[:rng.randint(1, len(f) - 1)]
         items.append((segs, v, bad, tail, mode))
+    # the victim repeats an earlier frame verbatim (stations repeat 1005/1006/1230) and is damaged in the payload only
+    for _ in range(60 * mult):
+        f = gen.make_frame(gen.payload_with_type(rng, rng.choice([1005, 1006, 1230, 1033]), rng.choice([19, 21, 8, 40])))
+        segs = [("F", f)] + ([("J", gen.rand_junk(rng))] if rng.random() < 0.3 else []) + [("F", f), ("F", gen.rand_frame(rng, small=True))]
+        v = max(i for i, (k, b) in enumerate(segs) if b == f)
+        g = bytearray(f)
+        i = rng.randint(5, len(f) - 4)
+        g[i] ^= 1 << rng.randint(0, 7)
+        items.append((segs, v, bytes(g), b"", "damaged-repeat"))
     if res.tier == "thorough":
         for _ in range(6):
             segs = [("F", gen.rand_frame(rng, small=True)) for _ in range(5)]
